@@ -28,6 +28,9 @@ TRUSTED = c01.TRUSTED + [
     "predicate) and `_pack_string` = pack_view; that str -> UTF-8 -> str is the identity on valid UTF-8 is assumed of the codec",
     "single-precision floats pass through a Python float: bit patterns are preserved except that a signalling NaN "
     "is quieted (modelled: quiet_groups). This makes the full-strength parsed pass-through FALSE; see C02_parsed_passthrough_refuted",
+    "NOT proved, only checked by the impl-level oracle on every generated datagram: 'the re-encoded datagram decodes to the same message' "
+    "(C02_same_message of the design). Its full-strength form is false (C02_same_message_refuted: a zero-coded body that overshoots the "
+    "decoder's 0x3000 limit in its last chunk is accepted, its canonical re-encoding is refused); no positive theorem is claimed for it",
 ]
 
 OPS = ["", "h", "b", "hb", "bh", "bb", "hbhb"]
@@ -176,7 +179,7 @@ def gen_datagrams(ctx, im: c01.Impl):
     text_types = [t for t in im.tmsgs if any(tv.text and not tv.bin for b in t.blocks for tv in b.vars)]
     f32_types = [t for t in im.tmsgs if any(tv.ty in c01.F32S for b in t.blocks for tv in b.vars)]
     pools = [("special", spec), ("text", text_types), ("f32", f32_types), ("any", im.tmsgs)]
-    n = ctx.pick(700, 20000)
+    n = ctx.pick(1600, 24000)
     for i in range(n):
         kind, pool = pools[i % len(pools)]
         t = rng.choice(pool)
@@ -218,7 +221,7 @@ def gen_datagrams(ctx, im: c01.Impl):
                     bb[pos:pos + 4] = rng.choice(SNAN + QNAN)
                 yield "nanbits", hdr + bytes(bb) + tail
     # all truncations of a few datagrams (exhaustive small scope over the cut position)
-    for t in rng.sample(im.tmsgs, ctx.pick(6, 60)):
+    for t in rng.sample(im.tmsgs, ctx.pick(10, 80)):
         m = g.message(t, big_ok=False, counts=1)
         b = im.serialize(m)
         if isinstance(b, str) or len(b) > 400:
@@ -247,6 +250,18 @@ def targeted_datagrams(im: c01.Impl):
         if isinstance(b, str):
             break
         yield "plain", b
+    # a zero-coded body whose last chunk (wrap form at the very end: 00 00 = 257 zeros) overshoots the decoder's
+    # 0x3000 limit: accepted, but its canonical re-encoding is not
+    u = im.dt.UUID(bytes=b"\x11" * 16)
+    m = M("ChatFromViewer", B("AgentData", AgentID=u, SessionID=u),
+          B("ChatData", Message=b"A" * 12000 + b"\x00" * 252, Type=0, Channel=0), packet_id=1, flags=0)
+    b0 = im.serialize(m)
+    if not isinstance(b0, str):
+        core = b0[6:-257]
+        enc = bytearray()
+        for c in core:
+            enc += b"\x00\x01" if c == 0 else bytes([c])
+        yield "capwindow", bytes([0x80]) + b0[1:6] + bytes(enc) + b"\x00\x00"
     # F32 field: CameraProperty? use `AgentHeightWidth`-free choice: find the first message with a single F32 in a Single block
     for t in im.tmsgs:
         cands = [(b, tv) for b in t.blocks for tv in b.vars if tv.ty == "TF32" and b.kind == "S"]
@@ -319,8 +334,15 @@ def check_datagram(im: c01.Impl, run: ImplRun, b: bytes, model_q=None):
         l1 = d1 if isinstance(d1, str) else c01.to_line(im, d1)
         l2 = d2 if isinstance(d2, str) else c01.to_line(im, d2)
         if l1 != l2:
+            cls = "reencoded-decodes-differently"
+            if zc and isinstance(d2, str):
+                try:
+                    if len(im.de_eager.zero_code_expand(r0["raw0"])) > 0x3000:
+                        cls = "reencoded-above-zerocode-cap"
+                except Exception:
+                    pass
             out.append(dict(base, clause="the re-encoded datagram decodes to the same message", got=l2[:300], want=l1[:300],
-                            **{"class": "reencoded-decodes-differently"}))
+                            **{"class": cls}))
     return out
 
 
@@ -488,7 +510,12 @@ def correspond(ctx):
         if k not in best or len(v["datagram"]) < len(best[k]["datagram"]):
             best[k] = v
     ctx.notes.append("impl violations by class: " + json.dumps({str(k[0]): sum(1 for v in res.impl_violations if v.get("class") == k[0]) for k in best}))
-    res.impl_violations = sorted(best.values(), key=lambda v: str(v.get("class")))
+    # the two recorded findings last, so that anything new is what gets reported first
+    known_cls = ("f32-signalling-nan-quieted", "reencoded-above-zerocode-cap")
+    res.impl_violations = sorted(best.values(), key=lambda v: (v.get("class") in known_cls, str(v.get("class"))))
+    for v in res.impl_violations:
+        if len(v.get("datagram", "")) > 4000:
+            v["datagram_note"] = "long datagram (%d bytes)" % (len(v["datagram"]) // 2)
     return [res, correspond_present(ctx, im)]
 
 
